@@ -12,7 +12,8 @@ RULE = ('multi-reference inputs (1-4 references, tandem repeats in 50 %, so seve
         '(InitialAlignmentMessage: all primary correlations of a query over all references and both strands; '
         'MultipleAlignmentResultRowsMessage: the candidates of one query in one pass), tagged with the pass by a wrapper '
         'on _WorkflowCoordinator.execute. Oracle: no query id twice in any file; candidates <= peaksCount and built '
-        'from the peaksCount highest-scoring primary peaks over all references/strands; the first-pass record has the '
+        'from the peaksCount highest-scoring primary peaks over all references/strands (first pass: recomputed by an '
+        'independent scan of every reference x strand through the real OpticalMap.getInitialAlignment, not taken from the bus); the first-pass record has the '
         'maximum confidence among the query\'s non-empty first-pass candidates and the pairs of a candidate attaining '
         'it; a query with a positive-confidence candidate has a record; second-pass file likewise per query (best over '
         'its fragments\' candidates); best mode: ids strictly ascending and the id set equals the ids with a first- or '
@@ -21,7 +22,8 @@ ASSUMPTIONS = ['exact ties in confidence between different candidates are counte
                'ties of primary peak scores at the peaksCount cut are skipped for the seed-origin clause']
 MINIMUMS = {'first-pass-queries-judged': {'quick': 900, 'thorough': 15000}, 'queries-with-2+-nonempty-candidates': {'quick': 300, 'thorough': 4000},
             'second-pass-queries-judged': {'quick': 100, 'thorough': 1500}, 'best-mode-runs': {'quick': 100, 'thorough': 1500},
-            'seed-origin-checked': {'quick': 1000, 'thorough': 12000}}
+            'seed-origin-checked': {'quick': 1000, 'thorough': 12000},
+            'independent-seed-scans': {'quick': 800, 'thorough': 10000}}
 
 
 def plan(tier, seed):
@@ -30,16 +32,7 @@ def plan(tier, seed):
 
 
 def initial_extension(pc, sink):
-    from src.extensions.extension import Extension
-    from src.extensions.messages import InitialAlignmentMessage
-
-    class Init(Extension):
-        messageType = InitialAlignmentMessage
-
-        def handle(self, m):
-            d = m.data
-            sink.append((pc.n, d.query, d.reference.moleculeId, bool(d.reverseStrand), [(p.score, p.position) for p in d.peaks]))
-    return Init()
+    return hooks.initial_extension(pc, sink)
 
 
 def qkey(q):
@@ -81,11 +74,33 @@ def judge(case, wd, sh):
     primary = collections.defaultdict(list)
     for ps, q, rid, rev, peaks in inits:
         primary[(ps, qkey(q))] += [(s, rid, rev) for s, _ in peaks]
+    # independent scan for the first pass: every reference x both strands through the real OpticalMap.getInitialAlignment,
+    # built from the CMAP text and the command-line parameters (not from what the coordinator chose to look at)
+    from src.correlation.optical_map import OpticalMap
+    from src.correlation.sequence_generator import SequenceGenerator
+    refs_t, qs_t = pipeline.parsed_inputs(case)
+    g = SequenceGenerator(P['r1'], P['b1'])
+    rmaps = [OpticalMap(i, int(v[0]), list(v[1])) for i, v in sorted(refs_t.items())]
+    scan = {}
+    for i, v in qs_t.items():
+        qm = OpticalMap(i, int(v[0]), list(v[1])).trim()
+        lst = []
+        for r in rmaps:
+            for rev in (False, True):
+                ia = qm.getInitialAlignment(r, g, P['md'], P['p'], rev)
+                lst += [(pk.score, r.moleculeId, rev) for pk in ia.peaks]
+        scan[i] = sorted(lst, key=lambda x: -x[0])
     per_query = {1: collections.defaultdict(list), 2: collections.defaultdict(list)}
     for ps, q, msgs in cands:
         if len(msgs) > P['p']:
             viol.append(('more-candidates-than-peaksCount', 'query %s pass %d: %d candidates with -p %d' % (q.moleculeId, ps, len(msgs), P['p']), {'query': q.moleculeId}))
         allp = sorted(primary.get((ps, qkey(q)), []), key=lambda x: -x[0])
+        if ps == 1 and q.moleculeId in scan:
+            ind = scan[q.moleculeId]
+            if len(ind) != len(allp) or any(abs(a[0] - b[0]) > 1e-9 for a, b in zip(ind, allp)):
+                sh.count('bus-and-independent-scan-differ')
+            allp = ind          # the independent scan decides
+            sh.count('independent-seed-scans')
         if allp:
             top = allp[:P['p']]
             tie = len(allp) > P['p'] and abs(allp[P['p']][0] - allp[P['p'] - 1][0]) < 1e-12
@@ -98,6 +113,8 @@ def judge(case, wd, sh):
                         q.moleculeId, ps, got, P['p'], exp), {'query': q.moleculeId, 'pass': ps}))
             else:
                 sh.count('seed-ties-skipped')
+        elif msgs:
+            viol.append(('candidates-without-any-primary-peak', 'query %s pass %d has %d candidates but the scan finds no primary peak' % (q.moleculeId, ps, len(msgs)), {'query': q.moleculeId}))
         per_query[min(ps, 2)][q.moleculeId] += [(m.alignment.confidence, sorted(oracles.row_pairs(m.alignment)), m.alignment.referenceId, m.alignment.reverseStrand) for m in msgs]
     for ps, recs, name in ((1, first, 'first'), (2, second, 'second')):
         for qid, cl in per_query[ps].items():
@@ -125,6 +142,9 @@ def judge(case, wd, sh):
                 viol.append(('record-content-is-not-the-best-candidate', '%s-pass record of query %s does not list the pairs of a best candidate' % (name, qid), focus))
             if len([c for c in ne if abs(c[0] - best) < 1e-9]) > 1:
                 sh.count('exact-confidence-ties')
+    for qid, lst in scan.items():
+        if lst and qid not in per_query[1]:
+            viol.append(('query-with-seed-peaks-has-no-candidates', 'query %s has %d primary peaks over all references/strands but no candidate was built' % (qid, len(lst)), {'query': qid}))
     for qid in first:
         if qid not in per_query[1]:
             viol.append(('record-without-candidate-event', 'first-pass record of query %s without any candidate message' % qid, {'query': qid}))
@@ -156,6 +176,8 @@ def run_shard(spec):
                                  param_prob=0.0, ref_kw={'repeats': rng.random() < 0.5})
         if rng.random() < 0.5:
             gen.add_nearfull(rng, case)
+        if rng.random() < 0.4:
+            gen.add_short_contig_first(rng, case)
         case['params']['p'] = rng.choice([1, 3, 6, 8])
         case['params']['md'] = rng.choice([20000, 20000, 5000])
         case['gen'] = [spec['seed'], spec['shard'], i]
